@@ -216,6 +216,24 @@ def run_impl(case):
             raise
         apply_history(case, L, K, Kt)
         n = len(L)
+        # warm-up: the TRACED context object is asked through its public API before it is traced (extents of the
+        # lattice's intents with and without base objects, intents of object sets, a first trace)
+        for w in case.get('warmup') or []:
+            kind, a, b = w[0], w[1], w[2]
+            h = Kt.n_objects
+            if kind == 'trace':
+                L.trace_context(Kt, use_object_indices=bool(a % 2))
+                continue
+            base = None if b is None else sorted({g % h for g in b}) if h else []
+            if kind == 'ext':
+                Kt.extension_i(L[a % n].intent_i, base)
+            elif kind == 'ext_attr' and not case.get('mv'):
+                Kt.extension_i([a % Kt.n_attributes] if Kt.n_attributes else [], base)
+            elif kind == 'int':
+                objs = sorted({g % h for g in (b or [a])}) if h else []
+                Kt.intention_i(objs)
+            elif kind == 'int_base' and not case.get('mv') and Kt.n_attributes:
+                Kt.intention_i([a % h] if h else [], sorted({m % Kt.n_attributes for m in (b or [0])}))
         try:
             bot, tr = L.trace_context(Kt, use_object_indices=case['by_index'])
             err = None
@@ -308,8 +326,8 @@ def to_coq(case, out):
 
 def _mk(train, algo, test, names, by_index, L_max=100, keep=None, mono=False, kind='', test_kind='',
         mv=False, engines=None, history=None, share_names=False, train_backend=None, test_backend=None,
-        rebuild=None):
-    return {'rebuild': rebuild or [], 'train_backend': train_backend, 'test_backend': test_backend, 'share_names': share_names, 'train': train, 'algo': algo, 'L_max': L_max, 'keep': keep or [], 'mono': mono, 'test': test,
+        rebuild=None, warmup=None):
+    return {'warmup': warmup or [], 'rebuild': rebuild or [], 'train_backend': train_backend, 'test_backend': test_backend, 'share_names': share_names, 'train': train, 'algo': algo, 'L_max': L_max, 'keep': keep or [], 'mono': mono, 'test': test,
             'names': names, 'by_index': by_index, 'kind': kind, 'test_kind': test_kind, 'mv': mv,
             'engines': engines or [], 'history': history or []}
 
@@ -716,6 +734,24 @@ def random_mvmix_case(rng, max_h, history=False):
                engines=engines, history=hist, share_names=share)
 
 
+def random_warmup(rng):
+    ops = []
+    for _ in range(rng.randint(1, 5)):
+        kind = rng.choice(['ext', 'ext', 'ext', 'ext_attr', 'int', 'int_base', 'trace'])
+        a = rng.randrange(50)
+        if kind in ('ext', 'ext_attr'):
+            # with a base set of objects (possibly empty / a single object / a few) or without
+            b = rng.choice([None, [], [rng.randrange(20)], [rng.randrange(20) for _ in range(rng.randint(2, 3))]])
+            if b is None and rng.random() < 0.5:
+                b = [rng.randrange(20) for _ in range(2)]
+        elif kind == 'trace':
+            b = None
+        else:
+            b = [rng.randrange(20) for _ in range(rng.randint(1, 3))]
+        ops.append([kind, a, b])
+    return ops
+
+
 def exhaustive_cases():
     for (h, w) in ((2, 3), (3, 2)):
         tests = list(gen.all_tables(2, w))
@@ -742,6 +778,10 @@ def generate(rng, tier):
     for k in range(n_hist):
         cases.append(random_mv_case(rng, dim, history=True) if k % 5 == 0 else
                      random_mvmix_case(rng, dim, history=True) if k % 5 == 1 else random_case(rng, dim, history=True))
+    # a third of the random cases query the traced context before tracing it
+    for c in cases:
+        if c.get('kind') != 'exhaustive' and not c.get('mono') and rng.random() < 0.35:
+            c['warmup'] = random_warmup(rng)
     return cases
 
 
@@ -777,6 +817,7 @@ def stats(case):
     for op in case.get('history') or []:
         d['history_op'] = op[0]
     d['same_object_names'] = bool(case.get('share_names'))
+    d['traced context'] = 'queried before the trace' if case.get('warmup') else 'fresh'
     if case['algo'] == 'sub' and not case.get('mv'):
         d['sub-list concepts'] = 'some re-created by from_objects (shuffled objects)' if case.get('rebuild') else 'as mined'
     if not case.get('mv'):
